@@ -67,3 +67,9 @@ Lemma render_parse_padded_stmt : forall o pad m max_size request_payload w,
   to_wire m o max_size request_payload false pad = Ok w ->
   exists m', from_wire w o po0 = Ok m' /\ msg_equiv_p pad m' m.
 Proof. intros o pad m ms rp w OO. exact (render_parse_pad_lemma o OO pad m ms rp w). Qed.
+
+Lemma update_forms_roundtrip_padded_stmt : forall o pad m z max_size request_payload w,
+  org_ok o -> WfUpd o m z -> wf_tsig m ->
+  to_wire m o max_size request_payload false pad = Ok w ->
+  exists m', from_wire w o po0 = Ok m' /\ msg_equiv_p pad m' m.
+Proof. intros o pad m z ms rp w OO. exact (update_roundtrip_pad_lemma o OO pad m z ms rp w). Qed.
